@@ -100,31 +100,50 @@ fn main() {
 """
 
 
+def through_fragments(src):
+    """the same definitions as the output of macro_rules! macros whose `$t:ty` fragments are the reference types, in the
+    attributes and in the fields alike (each then reaches the derive inside a None-delimited group)"""
+    import re
+    lines = []
+    for k, l in enumerate(src.split("\n")):
+        if l.startswith("#[derive(Educe)]"):
+            tys = []
+
+            def sub(m):
+                tys.append(m.group(0))
+                return "$t%d" % (len(tys) - 1)
+            body = re.sub(r"&(?:'static )?(?:str|\[u8\])", sub, l)
+            l = "macro_rules! mk%d { (%s) => { %s } } mk%d!(%s);" % (k, ", ".join("$t%d:ty" % j for j in range(len(tys))), body, k, ", ".join(tys))
+        lines.append(l)
+    return "\n".join(lines)
+
+
 def reference_target_tie(tie):
     """reference target types, the field marker and the request spelling the lifetime differently (`&str` / `&'static str`)"""
     import os, subprocess
     so = common.build_proc_macro()
     work = common.scratch("C10r")
     path = os.path.join(work, "refs.rs")
-    open(path, "w").write(REF_TARGETS)
-    rc, diags = common.rustc_compile(path, os.path.join(work, "refs"), so)
-    tie["evaluations"] += 7
-    if rc != 0:
-        errs = [d for d in diags if d.get("level") == "error" and d.get("spans")]
-        e = errs[0] if errs else {"message": "rustc failed", "spans": [{"line_start": 0}]}
-        ln = e["spans"][0]["line_start"]
-        lines = REF_TARGETS.split("\n")
-        tie["failing"].append({"what": "Into with a reference target type is refused or does not compile", "rust_source": lines[ln - 1] if 0 < ln <= len(lines) else "",
-                               "observed": (e.get("rendered") or e.get("message"))[:600], "expected_spec": "accepted; returns the designated field"})
-    else:
-        p = subprocess.run([os.path.join(work, "refs")], capture_output=True, text=True, timeout=60)
-        want = ["A a", "B b", "C1 A", "C2 x", "D [49, 50]", "D8 5", "E e"]
-        got = p.stdout.split("\n")[:-1]
-        if got != want:
-            k = next((j for j in range(min(len(got), len(want))) if got[j] != want[j]), 0)
-            tie["failing"].append({"what": "Into with a reference target returns a different field", "rust_source": REF_TARGETS,
-                                   "observed": got[k] if k < len(got) else p.stderr[-300:], "expected_spec": want[k]})
-    tie["extra"]["reference_target_cases"] = 7
+    for REF in (REF_TARGETS, through_fragments(REF_TARGETS)):
+        open(path, "w").write(REF)
+        rc, diags = common.rustc_compile(path, os.path.join(work, "refs"), so)
+        tie["evaluations"] += 7
+        if rc != 0:
+            errs = [d for d in diags if d.get("level") == "error" and d.get("spans")]
+            e = errs[0] if errs else {"message": "rustc failed", "spans": [{"line_start": 0}]}
+            ln = e["spans"][0]["line_start"]
+            lines = REF.split("\n")
+            tie["failing"].append({"what": "Into with a reference target type is refused or does not compile", "rust_source": lines[ln - 1] if 0 < ln <= len(lines) else "",
+                                   "observed": (e.get("rendered") or e.get("message"))[:600], "expected_spec": "accepted; returns the designated field"})
+        else:
+            p = subprocess.run([os.path.join(work, "refs")], capture_output=True, text=True, timeout=60)
+            want = ["A a", "B b", "C1 A", "C2 x", "D [49, 50]", "D8 5", "E e"]
+            got = p.stdout.split("\n")[:-1]
+            if got != want:
+                k = next((j for j in range(min(len(got), len(want))) if got[j] != want[j]), 0)
+                tie["failing"].append({"what": "Into with a reference target returns a different field", "rust_source": REF,
+                                       "observed": got[k] if k < len(got) else p.stderr[-300:], "expected_spec": want[k]})
+    tie["extra"]["reference_target_cases"] = 14
     import shutil
     shutil.rmtree(work, ignore_errors=True)
 
